@@ -141,6 +141,9 @@ fn stacks(p: &Parameters) -> Vec<StackDesc> {
         // joint limits on J6 only, off centre (the range contains 0, its mid-point is 30 degrees); J1..J5 unconstrained
         StackDesc::bare(*p).limited(j6_limits()),
         StackDesc::bare(*p).limited(j6_limits()).with(Wrap::Base(base)).with(Wrap::Tool(axial)),
+        // J6 allowed almost two turns (-350..350 degrees, centre 0), answers ordered by the limit centres alone (weight 1):
+        // the caller's J6 is kept bit for bit even when it lies more than half a turn from that centre
+        StackDesc::bare(*p).limited(Limits { from: [0.0, 0.0, 0.0, 0.0, 0.0, (-350.0f64).to_radians()], to: [0.0, 0.0, 0.0, 0.0, 0.0, 350.0f64.to_radians()], weight: 1.0 }),
     ]
 }
 
@@ -192,7 +195,7 @@ pub fn run(ctx: &Ctx) -> Report {
         }
     }
     let ax = theta_axes(thorough);
-    let nst = 8usize;
+    let nst = 9usize;
     let sizes: Vec<usize> = [robots.len(), nst].into_iter().chain(ax.iter().map(|a| a.len())).collect();
     let n = par::product(&sizes);
     let mut rep = par::run(n, |idx, r| {
@@ -272,7 +275,7 @@ pub fn run(ctx: &Ctx) -> Report {
         rep.fail("C06/declared-dof-lost/urdf-parameters".to_string(), n + 9_000_000 + i as u64, json!({"kind": "urdf-declared-dof"}), d.clone());
     }
     rep.traces_validated = rep.transitions;
-    rep.rule = "robots R (dof 5 and 6, one with J6 sign 0, four declared 5-DOF through a URDF description object and parameters()) x stacks {bare, axial tool, z-shift tool, base, base>tool, tool>base, bare and base>tool with off-centre J6 limits -40..100 deg} x theta lattice x \
+    rep.rule = "robots R (dof 5 and 6, one with J6 sign 0, four declared 5-DOF through a URDF description object and parameters()) x stacks {bare, axial tool, z-shift tool, base, base>tool, tool>base, bare and base>tool with off-centre J6 limits -40..100 deg, bare with J6 limits -350..350 deg sorted by the limit centres} x theta lattice x \
                 J6 alphabet {0,0.55,-3,pi,7.5,1e3} x entry points; oracle: tool point/axis through the stack's reference FK, J6 bit-equal to the \
                 caller's, originating J1..J5 present and answer list non-empty when the configuration is regular; history variant for the \
                 continuing entry points: previous = q already at the requested tool point, requested axis tilted by {0.35, -2.0} rad (soundness clauses only); \
